@@ -380,8 +380,10 @@ def adopt_templates(case, envs, res):
     cls = {'Config': fdl.Config, 'Partial': fdl.Partial}[d.get('btype', 'Config')]
     tpl = cls(envs[0].fns[d['fn']], *[mk(a) for a in d.get('args', [])],
               **{n: mk(v) for n, v in d.get('kwargs', {}).items()})
-    for env in envs:
-      env.cfgs.append(_copy.deepcopy(tpl))
+    for j, env in enumerate(envs):
+      # the first thread works on the template itself, the others on deep copies
+      # of it (so that exactly two objects share what one deepcopy shares)
+      env.cfgs.append(tpl if (j == 0 and len(envs) > 1) else _copy.deepcopy(tpl))
   for env in envs:
     env.new_entries()   # (entries inherited from the template are not this thread's;
     del env.keep_entries[:]   # the configs keep them alive, so ids stay unique)
